@@ -44,3 +44,23 @@ package fs
 //@   ensures upgrade: fs.watchData != nil && old(inDom(fs.watchData, path)) && old(fs.watchData[path].state) == stateFileNeedModKey ==> fs.watchData[path].state == stateFileHasModKey
 //@   ensures file-states-kept: fs.watchData != nil && old(inDom(fs.watchData, path)) && old(fs.watchData[path].state) != stateFileNeedModKey && old(fs.watchData[path].state) != stateDirUnreadable ==> fs.watchData[path].state == old(fs.watchData[path].state)
 //@   ensures contents-kept: fs.watchData != nil ==> fs.watchData[path].fileContents == old(fs.watchData[path].fileContents)
+
+// ----------------------------------------------------------------------------------------------
+// C16 (zero-annotation safety sweep): for ALL arguments (no precondition), no index, slice, nil-dereference,
+// division or conversion in the body of these functions can panic. Loop counters that start at a constant and are
+// only incremented get their lower bound as an automatic invariant (`opt auto-counters`); nothing else is assumed.
+// Calls are replaced by contracts, inlined, or havocked: a panic inside a callee without a contract is not covered.
+//@ func win2unix
+//@   arith int
+//@   nooverflow off
+//@   safety
+//@   opt auto-counters 1
+//@   prop C16
+
+//@ func isReservedName
+//@   arith int
+//@   nooverflow off
+//@   safety
+//@   opt auto-counters 1
+//@   prop C16
+
